@@ -9,6 +9,7 @@ import (
 	"sync"
 
 	biscuit "github.com/biscuit-auth/biscuit-go/v2"
+	"github.com/biscuit-auth/biscuit-go/v2/datalog"
 
 	"verif/internal/hx"
 	"verif/internal/refdl"
@@ -35,6 +36,15 @@ func c09Tokens() []string {
 	return out
 }
 
+// construction modes of the twins space (bit set)
+const (
+	c09ModeParentUsed = 1 // before sealing, the token is attenuated (result discarded), inspected, serialized and verified
+	c09ModeBaseTable  = 2 // the token is built over WithSymbols(non-empty table) and reloaded through an Unmarshaler with that table
+	c09NModes         = 4
+)
+
+var c09ModeNames = []string{"plain", "parent used before sealing", "caller-supplied base table", "base table + parent used"}
+
 type c09Panel struct {
 	blk refdl.Block
 	pol []refdl.Policy
@@ -52,13 +62,19 @@ var c09Panels = []c09Panel{
 }
 
 // c09Token builds authority + blocks, optionally with root key id 7.
-func c09Token(seed uint64, authority refdl.Block, blocks []refdl.Block, withID bool) (*biscuit.Biscuit, error) {
+func c09Token(seed uint64, authority refdl.Block, blocks []refdl.Block, withID bool, base *datalog.SymbolTable) (*biscuit.Biscuit, error) {
 	_, priv := hx.Keys(1)
+	// identifier 0 (the zero value, easily confused with "absent") or 7
+	id := biscuit.WithRootKeyID(uint32(7 * ((seed >> 1) % 2)))
 	var b biscuit.Builder
-	if withID {
-		// identifier 0 (the zero value, easily confused with "absent") or 7
-		b = biscuit.NewBuilder(priv, biscuit.WithRNG(hx.NewRNG(seed)), biscuit.WithRootKeyID(uint32(7*((seed>>1)%2))))
-	} else {
+	switch {
+	case withID && base != nil:
+		b = biscuit.NewBuilder(priv, biscuit.WithRNG(hx.NewRNG(seed)), id, biscuit.WithSymbols(base))
+	case withID:
+		b = biscuit.NewBuilder(priv, biscuit.WithRNG(hx.NewRNG(seed)), id)
+	case base != nil:
+		b = biscuit.NewBuilder(priv, biscuit.WithRNG(hx.NewRNG(seed)), biscuit.WithSymbols(base))
+	default:
 		b = biscuit.NewBuilder(priv, biscuit.WithRNG(hx.NewRNG(seed)))
 	}
 	if err := hx.FillBuilder(b, authority); err != nil {
@@ -127,21 +143,44 @@ func init() {
 		ID:        "C09",
 		Level:     "model_checking",
 		Technique: "differential enumeration sealed vs unsealed twins over all small token histories x an authorizer panel, plus explicit-state search of edits of sealed envelopes (C01 machinery restricted to the seal, the last block and the last announced key) on the real code",
-		Rule:      "twins: every token with 1-3 blocks over contents {P, Q, C} (39 tokens), its sealed twin, and both after Serialize+Unmarshal; observation = verification under the right and a wrong root, the outcome class of 8 authorizer contents, the revocation identifiers; Append and Seal on both sealed forms must return an error and no token. Edits: from every sealed pool token, every envelope within 2 edits that touch the seal signature, the last block or the last announced key (field substitution from the full universe, flipped/truncated/extended variants, signatures and seals computable by the attacker, proof replacement) - accepted only if the reference chain predicate holds. Non-trivial = token with at least one later block (twins) / every edited state; distinct by construction.",
+		Rule:      "twins: every token with 1-3 blocks over contents {P, Q, C} (39 tokens) x 4 construction modes (plain; the token attenuated, inspected, serialized and verified before it is sealed; built over a caller-supplied base symbol table; both), its sealed twin, both after Serialize+Unmarshal, and the token sealed after a reload; observation = verification under the right and a wrong root, the outcome class of 8 authorizer contents, the revocation identifiers; Append and Seal on both sealed forms must return an error and no token. Edits: from every sealed pool token, every envelope within 2 edits that touch the seal signature, the last block or the last announced key (field substitution from the full universe, flipped/truncated/extended variants, signatures and seals computable by the attacker, proof replacement) - accepted only if the reference chain predicate holds. Non-trivial = token with at least one later block (twins) / every edited state; distinct by construction.",
 		Assume:    []string{"same trusted base as C01 for the edit search"},
 		Spaces: func(c *sup.Ctx) []*sup.Space {
 			toks := c09Tokens()
-			twins := &sup.Space{Name: "sealed-vs-unsealed-twins", Size: func(*sup.Ctx) int64 { return int64(len(toks)) }, Run: func(i int64, w *sup.W) {
+			twins := &sup.Space{Name: "sealed-vs-unsealed-twins", Size: func(*sup.Ctx) int64 { return int64(len(toks)) * c09NModes }, Run: func(i int64, w *sup.W) {
+				mode := int(i % c09NModes)
+				i /= c09NModes
 				name := toks[i]
 				var blocks []refdl.Block
 				for _, ch := range name[1:] {
 					blocks = append(blocks, c09Contents[byte(ch)])
 				}
 				withID := i%2 == 1 // every second token carries a root key id
-				u, err := c09Token(uint64(i)+10, c09Contents[name[0]], blocks, withID)
+				var baseTable *datalog.SymbolTable
+				if mode&c09ModeBaseTable != 0 {
+					// a caller-supplied base table holding strings the contents use, so that indexes differ from a default-table token
+					baseTable = &datalog.SymbolTable{"base0", "alice", "file1"}
+				}
+				u, err := c09Token(uint64(i)+10, c09Contents[name[0]], blocks, withID, baseTable)
 				if err != nil {
 					w.Violate("C09:build-failed", name, err.Error(), "a token")
 					return
+				}
+				nb := len(name)
+				name = name + " (" + c09ModeNames[mode] + ")"
+				if mode&c09ModeParentUsed != 0 {
+					// the token has a life before it is sealed: it is attenuated (the result goes elsewhere), inspected, verified
+					bb := u.CreateBlock()
+					hx.FillBlock(bb, poolQ)
+					if nt, err := u.Append(hx.NewRNG(77), bb.Build()); err != nil || nt == nil {
+						w.Violate("C09:append-on-unsealed-failed", name, fmt.Sprint(err), "a token")
+						return
+					}
+					u.RevocationIds()
+					u.Serialize()
+					_ = u.String()
+					u.GetBlockID(biscuit.Fact{Predicate: biscuit.Predicate{Name: "owner", IDs: []biscuit.Term{biscuit.String("alice")}}})
+					u.AuthorizerFor(biscuit.WithSingularRootPublicKey(rootPub(1)), hx.LongLimits)
 				}
 				s, err := u.Seal(hx.NewRNG(99))
 				if err != nil || s == nil {
@@ -153,25 +192,34 @@ func init() {
 					if err != nil {
 						return nil
 					}
-					n, err := biscuit.Unmarshal(ser)
+					var n *biscuit.Biscuit
+					if baseTable != nil {
+						n, err = (&biscuit.Unmarshaler{Symbols: &datalog.SymbolTable{"base0", "alice", "file1"}}).Unmarshal(ser)
+					} else {
+						n, err = biscuit.Unmarshal(ser)
+					}
 					if err != nil {
 						return nil
 					}
 					return n
 				}
 				u2, s2 := rt(u), rt(s)
-				if u2 == nil || s2 == nil {
+				var s3 *biscuit.Biscuit // sealed from the reloaded unsealed token
+				if u2 != nil {
+					s3, _ = u2.Seal(hx.NewRNG(98))
+				}
+				if u2 == nil || s2 == nil || s3 == nil {
 					w.Violate("C09:roundtrip-failed", name, "Serialize/Unmarshal error", "tokens")
 					return
 				}
-				w.Stats().States += 4
-				w.Stats().Transitions += 4
+				w.Stats().States += 5
+				w.Stats().Transitions += 5
 				base := c09Describe(u, 1, 2)
 				type lt struct {
 					label string
 					t     *biscuit.Biscuit
 				}
-				for _, x := range []lt{{"sealed", s}, {"unsealed-reloaded", u2}, {"sealed-reloaded", s2}} {
+				for _, x := range []lt{{"sealed", s}, {"unsealed-reloaded", u2}, {"sealed-reloaded", s2}, {"sealed-after-reload", s3}} {
 					label, t := x.label, x.t
 					if got := c09Describe(t, 1, 2); got != base {
 						w.Class("twin-differs")
@@ -191,7 +239,7 @@ func init() {
 						return
 					}
 				}
-				for _, x := range []lt{{"sealed", s}, {"sealed-reloaded", s2}} {
+				for _, x := range []lt{{"sealed", s}, {"sealed-reloaded", s2}, {"sealed-after-reload", s3}} {
 					label, t := x.label, x.t
 					bb := t.CreateBlock()
 					hx.FillBlock(bb, poolQ)
@@ -208,12 +256,12 @@ func init() {
 						return
 					}
 				}
-				w.Class(fmt.Sprintf("%d-blocks", len(name)))
-				if len(name) > 1 {
+				w.Class(fmt.Sprintf("%d-blocks", nb))
+				if nb > 1 {
 					w.NontrivialByIndex()
 				}
-				if w.WantSample(fmt.Sprint(len(name))) {
-					w.Sample(fmt.Sprint(len(name)), map[string]string{"token": name, "observation": base})
+				if w.WantSample(fmt.Sprint(nb)) {
+					w.Sample(fmt.Sprint(nb), map[string]string{"token": name, "observation": base})
 				}
 			}}
 			var pool []*poolToken
